@@ -16,12 +16,27 @@ import VotelibModel.Threshold
 import VotelibModel.OpenList
 import VotelibModel.Simple
 import VotelibModel.Gen.Quota
+import VotelibModel.Gen.Threshold
 import VotelibProofs.Props.C09
 namespace VL.C16
 open VL
 
 /-- well-formed dict: keys are distinct -/
 def WF (votes : Votes) : Prop := (keys votes).Nodup
+
+/-! ## the filter conditions as they stand in the source (Gen/Threshold.lean is regenerated on every run) -/
+
+/-- **The literal condition of `AbsoluteThreshold.evaluate`** is the boundary rule: strictly over the threshold,
+    or exactly on it when equality is accepted. -/
+theorem abs_condition_exact (t : Rat) (eq : Bool) (v : Rat) :
+    Gen.Threshold.abs_threshold_passes t eq v = true ↔ (t < v ∨ (eq = true ∧ v = t)) := by
+  simp [Gen.Threshold.abs_threshold_passes]
+
+/-- **The literal condition of `RelativeThreshold.evaluate`** compares the exact share `n_votes / total` with the
+    threshold in both branches. -/
+theorem rel_condition_exact (t : Rat) (eq : Bool) (total v : Rat) :
+    Gen.Threshold.rel_threshold_passes t eq total v = true ↔ (t < v / total ∨ (eq = true ∧ v / total = t)) := by
+  simp [Gen.Threshold.rel_threshold_passes]
 
 /-! ## AbsoluteThreshold -/
 
@@ -30,7 +45,7 @@ def WF (votes : Votes) : Prop := (keys votes).Nodup
 theorem abs_threshold_exact (t : Rat) (eq : Bool) (votes : Votes) (c : Cand) :
     c ∈ absoluteThreshold t eq votes ↔ ∃ v, (c, v) ∈ votes ∧ (t < v ∨ (eq = true ∧ v = t)) := by
   unfold absoluteThreshold
-  simp only [List.mem_map, List.mem_filter, mem_sortDesc, passes_iff]
+  simp only [List.mem_map, List.mem_filter, mem_sortDesc, abs_condition_exact]
   constructor
   · rintro ⟨⟨c', v⟩, ⟨hm, hp⟩, rfl⟩; exact ⟨v, hm, hp⟩
   · rintro ⟨v, hm, hp⟩; exact ⟨(c, v), ⟨hm, hp⟩, rfl⟩
@@ -55,7 +70,7 @@ theorem rel_threshold_exact (t : Rat) (eq : Bool) (votes : Votes) (hV : sumVals 
     | cons _ _ => rfl
   refine ⟨_, by unfold relativeThreshold; simp only [hne, if_neg hV]; rfl, ?_, List.filter_sublist.map _⟩
   intro c
-  simp only [List.mem_map, List.mem_filter, mem_sortDesc, passes_iff]
+  simp only [List.mem_map, List.mem_filter, mem_sortDesc, rel_condition_exact]
   constructor
   · rintro ⟨⟨c', v⟩, ⟨hm, hp⟩, rfl⟩; exact ⟨v, hm, hp⟩
   · rintro ⟨v, hm, hp⟩; exact ⟨(c, v), ⟨hm, hp⟩, rfl⟩
@@ -406,7 +421,12 @@ def IsJumper (eq : Bool) (thr : Rat) (votes : Votes) (c : Cand) : Prop :=
   ∃ v, (c, v) ∈ votes ∧ (thr < v ∨ (eq = true ∧ v = thr))
 
 theorem mem_jumpers (eq : Bool) (thr : Rat) (votes : Votes) (c : Cand) :
-    c ∈ jumpers eq thr votes ↔ IsJumper eq thr votes c := abs_threshold_exact thr eq votes c
+    c ∈ jumpers eq thr votes ↔ IsJumper eq thr votes c := by
+  unfold jumpers IsJumper
+  simp only [List.mem_map, List.mem_filter, mem_sortDesc, passes_iff]
+  constructor
+  · rintro ⟨⟨c', v⟩, ⟨hm, hp⟩, rfl⟩; exact ⟨v, hm, hp⟩
+  · rintro ⟨v, hm, hp⟩; exact ⟨(c, v), ⟨hm, hp⟩, rfl⟩
 
 /-- **The jump threshold as configured**: the jump fraction of the list total, the quota (multiplied by the quota
     fraction; a fraction of one changes nothing), the lower of the two by default, the higher one with
